@@ -149,6 +149,16 @@ func runFlow(c *flowCase, pick func(running []int) int) ([]flowEvent, error) {
 	running := map[int]bool{}
 	timeout := time.After(20 * time.Second)
 	finish := func(err error) ([]flowEvent, error) {
+		// callbacks issued before Run returned are already queued; they
+		// precede the End event
+		for drained := false; !drained; {
+			select {
+			case u := <-updCh:
+				trace = append(trace, u)
+			default:
+				drained = true
+			}
+		}
 		e := flowEvent{Ev: "End", OK: err == nil}
 		if err != nil {
 			switch {
